@@ -294,6 +294,12 @@ class CallMixin:
             recv = []
             if isinstance(e.func, ast.Attribute) and con.types and list(con.types)[0] in ("self", "cls"):
                 for s, r in self.ev(e.func.value, st, exc):
+                    if r.ty.kind == "opt":
+                        # calling a method on None raises AttributeError
+                        self.require_noexc(s, smt.Not(r.ts[0]), "AttributeError", "call_%s_on_none" % e.func.attr, exc)
+                        if s.infeasible():
+                            continue
+                        r = opt_inner(r)
                     for s2, pos, kw in self.eval_args(e, s, exc):
                         args = pos if r.ty.kind == "cls" else [r] + pos     # Class.method(self, ...) is unbound
                         out += self.apply_contract(con, args, kw, s2, exc, site=src)
